@@ -45,6 +45,7 @@ theorem npQ_cofs : (cofs npQ).map (fun C => (C.dim, C.band, C.buf)) = [(2, 1, #[
 theorem npQ_dims : (dimsN npQ).sum = npQ.m := by decide +kernel
 
 theorem npQ_rows : RowsOK (toProblem npQ) := by
+  apply RowsOK.of_nodup
   intro i hi
   have : i = 0 ∨ i = 1 ∨ i = 2 := by have : i < 3 := hi; omega
   rcases this with rfl | rfl | rfl <;> simp [toProblem, npQ, Array.getD]
